@@ -20,7 +20,7 @@ type gen struct {
 
 var allLeafKinds = []string{"base", "base", "plain", "retry", "fb", "retryfb", "func", "func", "func"}
 var payKinds = []string{"int", "str", "float", "map", "slice", "ptr", "struct", "nil"}
-var failKinds = []string{"sentinel", "wrapped", "custom"}
+var failKinds = []string{"sentinel", "wrapped", "custom", "wrapcustom"}
 var actionAlphabet = []string{"default", "", "a", "ab", "b"}
 
 func pick[T any](r *rand.Rand, xs []T) T { return xs[r.IntN(len(xs))] }
@@ -422,6 +422,14 @@ func faultfree(g *gen, r *rand.Rand) {
 }
 
 func genC01(prop, tier string, r *rand.Rand) *Scn {
+	sc := genC01base(prop, tier, r)
+	if r.IntN(4) == 0 {
+		withCancellation(sc, r)
+	}
+	return sc
+}
+
+func genC01base(prop, tier string, r *rand.Rand) *Scn {
 	return bounded(func() *Scn {
 		g := newGen(prop, tier, r)
 		faultfree(g, r)
@@ -438,6 +446,14 @@ func genC01(prop, tier string, r *rand.Rand) *Scn {
 }
 
 func genC02(prop, tier string, r *rand.Rand) *Scn {
+	sc := genC02base(prop, tier, r)
+	if r.IntN(4) == 0 {
+		withCancellation(sc, r)
+	}
+	return sc
+}
+
+func genC02base(prop, tier string, r *rand.Rand) *Scn {
 	return bounded(func() *Scn {
 		g := newGen(prop, tier, r)
 		g.failP = 0.35
@@ -478,6 +494,14 @@ func genC03(prop, tier string, r *rand.Rand) *Scn {
 }
 
 func genC04(prop, tier string, r *rand.Rand) *Scn {
+	sc := genC04base(prop, tier, r)
+	if r.IntN(4) == 0 {
+		withCancellation(sc, r)
+	}
+	return sc
+}
+
+func genC04base(prop, tier string, r *rand.Rand) *Scn {
 	return bounded(func() *Scn {
 		g := newGen(prop, tier, r)
 		faultfree(g, r)
@@ -612,7 +636,8 @@ func genC06(prop, tier string, r *rand.Rand) *Scn {
 		}
 	}
 	budget := 1 + r.IntN(2)
-	n := g.rootBatch(batchSize(r, 64), budget, pick(r, []int{0, 0, 10}), conc, false, []string{"results", "anys", "ints", "strings", "single", "nil"})
+	stop := r.IntN(4) == 0 // positional correspondence holds in either error mode
+	n := g.rootBatch(batchSize(r, 64), budget, pick(r, []int{0, 0, 10}), conc, stop, []string{"results", "anys", "ints", "strings", "single", "nil"})
 	g.timing(n)
 	return g.sc
 }
@@ -653,7 +678,8 @@ func genC08(prop, tier string, r *rand.Rand) *Scn {
 	}
 	n := g.rootBatch(ni, 1+r.IntN(2), 0, conc, false, nil)
 	g.timing(n)
-	if r.IntN(2) == 0 {
+	switch r.IntN(4) {
+	case 0:
 		// usability: every execution parks until min(c, n) executions have started
 		vs := &n.Visits[0]
 		for i := range vs.Items {
@@ -662,6 +688,26 @@ func genC08(prop, tier string, r *rand.Rand) *Scn {
 				vs.Items[i].Exec[a].SleepMs = 0
 			}
 			vs.Items[i].Exec[0].Gate = "barrier"
+		}
+	case 1, 2:
+		// usability, general form: up to c mutually dependent items anywhere in
+		// the batch each park until all of them have started; the others run freely
+		vs := &n.Visits[0]
+		for i := range vs.Items {
+			for a := range vs.Items[i].Exec {
+				vs.Items[i].Exec[a].Gate = ""
+				vs.Items[i].Exec[a].SleepMs = 0
+			}
+		}
+		k := max(conc, 1)
+		if len(vs.Items) < k {
+			k = len(vs.Items)
+		}
+		if k > 0 {
+			k = 1 + r.IntN(k)
+			for _, i := range r.Perm(len(vs.Items))[:k] {
+				vs.Items[i].Exec[0].Gate = "dep"
+			}
 		}
 	}
 	return g.sc
@@ -715,6 +761,38 @@ func genC09(prop, tier string, r *rand.Rand) *Scn {
 	return g.sc
 }
 
+// withCancellation turns a (batch-free, single-run) scenario into one where the
+// context is cancelled from inside one callback on the executed path, or by a
+// deadline strictly inside a simulated sleep or retry wait. The cancellation-
+// aware model then says exactly what the run must look like (C01/C02/C04 keep
+// holding: post iff the exec phase produced a result, fallback iff all N
+// attempts failed, the error reported is the context's when cut short).
+func withCancellation(sc *Scn, r *rand.Rand) {
+	for _, n := range sc.Nodes {
+		if n.Kind == "batch" {
+			return
+		}
+	}
+	sc.Runs = 1
+	mr := runModelUncancelled(sc).Runs[0]
+	if r.IntN(3) == 0 && mr.EndT > 0 {
+		d := r.Int64N(mr.EndT / 1000)
+		if d%10000 == 0 {
+			d += 1 + r.Int64N(9999)
+		}
+		sc.Ctx = CtxSpec{Kind: "deadline", DeadlineUs: d}
+		return
+	}
+	starts := startEvents(mr)
+	for try := 0; try < 8 && len(starts) > 0; try++ {
+		if o := sc.outcomeAt(pick(r, starts)); o != nil {
+			o.Cancel = true
+			sc.Ctx.Kind = "cancel"
+			return
+		}
+	}
+}
+
 // ---- cancellation profiles -----------------------------------------------------------
 
 func startEvents(mr *MRun) []MEv {
@@ -747,7 +825,7 @@ func genC05(prop, tier string, r *rand.Rand) *Scn {
 		return g.sc
 	})
 	sc.Runs = 1
-	mod := runModel(sc)
+	mod := runModelUncancelled(sc)
 	mr := mod.Runs[0]
 	switch mode := r.IntN(8); {
 	case mode == 0:
@@ -986,7 +1064,7 @@ func genC20(prop, tier string, r *rand.Rand) *Scn {
 	}
 	if cancelInWait {
 		// find a retry wait in the model's timeline and cancel strictly inside it
-		mod := runModel(g.sc)
+		mod := runModelUncancelled(g.sc)
 		var gaps [][2]int64
 		scan := func(evs []MEv) {
 			for i := 1; i < len(evs); i++ {
